@@ -930,6 +930,7 @@ func TestDriver(t *testing.T) {
 	d.scenarioStaleServingCache(blocks)
 	d.scenarioRePutOverExisting(blocks)
 	d.scenarioSharedAccessor(blocks)
+	d.scenarioSecondSquareLoad(blocks)
 
 	// seeded random programs (B1)
 	nprog := vh.EnvInt("VERIF_PROGRAMS", 60)
